@@ -21,7 +21,7 @@ NPROC = int(os.environ.get("VERIF_NPROC", "16"))
 
 class Case:
     def __init__(self, harness, label, shape, target=(), group=None, timeout_ms=None, expect=None, no_loop_specs=False, overrides=None, replay=True,
-                 contracts=None, loop_specs=None, drop_overrides=()):
+                 contracts=None, loop_specs=None, drop_overrides=(), no_contracts=False):
         self.harness = harness
         self.label = label
         self.shape = shape
@@ -34,6 +34,7 @@ class Case:
         self.expect = expect  # None (must be proved) | "refuted" (sentinel that must fail)
         self.contracts = dict(contracts or {})  # modular contracts (real function -> spec function) for this case only
         self.loop_specs = dict(loop_specs or {})  # loop contracts for this case only
+        self.no_contracts = no_contracts  # the engine-wide modular contracts are NOT used by this case (callees are executed)
         self.drop_overrides = tuple(drop_overrides)  # engine-wide assumed contracts NOT used by this case (the real dependency is executed)
 
 
@@ -93,6 +94,8 @@ def _run_case(arg):
         if case.loop_specs:
             E.I.loop_specs = dict(E.I.loop_specs)
             E.I.loop_specs.update(case.loop_specs)
+        if case.no_contracts:
+            E.I.contracts = {}
         E.I.contracts.update(case.contracts)
         for k in case.drop_overrides:
             E.I.overrides.pop(k, None)
